@@ -536,7 +536,11 @@ def replay_path(uni: Universe, scn, steps, read_mode, tally, probes=None, probe_
         if mm and ev["op"] != "update":
             # the step already deviates (another clause): the positions are still compared with the spec's state after the step, so
             # that a deviation is also reported under the clause that owns the positions (C10)
-            mm += compare_state(drv, st, tally)
+            mm2 = compare_state(drv, st, tally)
+            mm += mm2
+            if not mm2 and o == out and (read_mode == "all" or ev["op"] == "read" or i == len(steps) - 1):
+                # positions and outcome conform: the deviation so far is in reported values - decide the views' own clauses too (C13)
+                mm += compare_views(drv, view, tally, None)
         if not mm:
             mm += compare_actions(ev, new, acts, tally)
             if ev["op"] != "update":
